@@ -65,7 +65,7 @@ def _set_for(rng, c, negate):
         body += '-'                  # spec: trailing minus is a plain '-'
     elif r < 0.13 and not negate:
         body = '-' + body            # nothing on its left: a plain '-' too
-    elif r < 0.18 and c.isalnum():
+    elif r < 0.28 and c.isalnum():
         body += rng.choice(['0-z', '!-~', '0-9a-z'])    # wide ASCII ranges
     return '[' + body + ']'
 
@@ -122,6 +122,14 @@ def pattern_for(rng, path):
         pat = pat + rng.choice(PLAIN)
     elif r < 0.40:
         pat = '/' + '*' + pat[rng.randint(1, len(pat)):]
+        if not well_formed(pat):
+            pat = '/*'
+    if rng.random() < 0.03 and len(parts) > 1:
+        # a bracket list whose ASCII range happens to contain '/' in place of a
+        # separator: still one part, must not match the two-part address
+        k = rng.randrange(1, len(parts))
+        pat = '/' + '/'.join(parts[:k]) + rng.choice(['[!-~]', '[x+-9]', '[a!-~]'][1:]) \
+            + '/'.join(parts[k:])
         if not well_formed(pat):
             pat = '/*'
     assert well_formed(pat), pat
